@@ -12,6 +12,10 @@ import PV.Model.Format
 import PV.Spec.WF
 import PV.Model.Combine
 import PV.Model.Bytes
+import PV.Model.Resample
+import PV.Gen.Schema
+import PV.Model.JsonRep
+import PV.Model.Dobs
 
 open Lean PV PV.Wire
 
@@ -249,6 +253,49 @@ def opRenumber (j : Json) : Except String Json := do
     | none => pure (obj [("exc", .str "select")])
     | some (sel, _) => pure (obj [("configlist", enc cl), ("selected", enc sel)])
 
+/-- op "resample" (exact rationals): {"what": "jack" | "unjack" | "boot", "value": q, "x": [q], "table": [[k]]} -/
+def opResample (j : Json) : Except String Json := do
+  let what : String ← get j "what"
+  match what with
+  | "jack" => do
+    let v : Rat ← get j "value"
+    let x : List Rat ← get j "x"
+    pure (obj [("out", enc (exportJack v x))])
+  | "unjack" => do
+    let x : List Rat ← get j "x"
+    let r := importJack x
+    pure (obj [("value", enc r.1), ("out", enc r.2)])
+  | "boot" => do
+    let v : Rat ← get j "value"
+    let x : List Rat ← get j "x"
+    let t : List (List Nat) ← get j "table"
+    pure (obj [("out", enc (exportBoot v x t))])
+  | _ => .error "unknown resample"
+
+/-- op "schema": {"doc": json} -> {"valid": bool, "where": text} against the regenerated schema -/
+def opSchema (j : Json) : Except String Json := do
+  let doc ← field j "doc"
+  match validate Gen.Schema.defs Gen.Schema.root doc with
+  | none => pure (obj [("valid", .bool true), ("where", .str "")])
+  | some w => pure (obj [("valid", .bool false), ("where", .str w)])
+
+/-- op "jsonrep" (exact rationals): encode one replica block and decode it again -/
+def opJsonRep (j : Json) : Except String Json := do
+  let idl : List Int ← get j "idl"
+  let deltas : List (List Rat) ← get j "deltas"
+  let rvals : List Rat ← get j "rvals"
+  let vals : List Rat ← get j "vals"
+  let rows := encodeRep idl deltas rvals vals
+  let (i2, d2, r2) := decodeRep rows vals
+  pure (obj [("rows", enc (rows.map (fun r => r.2))), ("idl", enc i2), ("deltas", enc d2), ("rvals", enc r2)])
+
+/-- op "dobs": {"idl": [c], "nums": [written numbers]} -> {"kept": configurations that survive the import} -/
+def opDobs (j : Json) : Except String Json := do
+  let idl : List Int ← get j "idl"
+  let nums : List Float ← get j "nums"
+  let col := dobsColumn idl idl nums
+  pure (obj [("kept", enc ((dobsImport idl col (0 : Float)).map (·.1)))])
+
 def dispatch (op : String) (j : Json) : Except String Json :=
   match op with
   | "gamma" => opGamma false j
@@ -260,6 +307,10 @@ def dispatch (op : String) (j : Json) : Except String Json :=
   | "wf" => opWf j
   | "combine" => opCombine j
   | "readfile" => opReadFile j
+  | "resample" => opResample j
+  | "schema" => opSchema j
+  | "dobs" => opDobs j
+  | "jsonrep" => opJsonRep j
   | "renumber" => opRenumber j
   | "mkobs" => opMkObs j
   | "ping" => pure (.str "pong")
